@@ -21,7 +21,7 @@ RULE = (
     "patches {2,3} x probe a (position alphabet x z slot) in the reference sample x probe b (position) in "
     "the unknown sample x filler layout {one object per centre; dense-compact ref vs sparse-wide unknown; "
     "reverse; unknown larger in patch 0 but smaller in total} x configuration {binning (right/left closed, "
-    "empty middle bin, zmin 0.01, z 1.6-6) x scale set (1,2,3,4 scales) x unit (deg, arcmin, kpc, Mpc, kpc/h, "
+    "empty middle bin, zmin 0.01, z 1.6-6) x scale set (1,2,3,4 scales, also listed in non-ascending order) x unit (deg, arcmin, kpc, Mpc, kpc/h, "
     "Mpc/h) x separation weighting (none, alpha=-1 res 1/3/50, alpha=0.5 res 3)} x weights on/off; both "
     "crosscorrelate (dd,dr,rd,rr) and autocorrelate (dd,dr,rr). Oracle: O(n^2) Vincenty long-double pair "
     "loop per (scale,bin,i,j) and per-bin per-patch weight sums. Skipped by rule: a pair within 1e-9 (rel.) "
@@ -48,6 +48,7 @@ CONFIGS = {
         dict(binning="B2r", scales="ang3", unit="kpc", rweight=None, res=None, weighted=True),
         dict(binning="lowz", scales="ang3", unit="Mpc", rweight=None, res=None, weighted=False),
         dict(binning="B2r", scales="ang2", unit="deg", rweight=-1.0, res=3, weighted=True),
+        dict(binning="B2r", scales="ang3rev", unit="deg", rweight=-1.0, res=5, weighted=False),
     ],
 }
 CONFIGS["thorough"] = CONFIGS["quick"] + [
